@@ -969,6 +969,10 @@ class HTTPResponse(BaseHTTPResponse):
 
         if amt is None:
             data = self._decode(data, decode_content, flush_decoder)
+            if len(self._decoded_buffer) > 0:
+                # Bytes decoded by an earlier partial read come first.
+                self._decoded_buffer.put(data)
+                data = self._decoded_buffer.get_all()
             if cache_content:
                 self._body = data
         else:
